@@ -27,6 +27,9 @@ type treeState struct {
 func preload() {
 	for _, n := range corpus.Names() {
 		p := corpus.Get(n)
+		if p.BinaryType != nil {
+			gen.BinaryTypeOf[p.BinaryType.PkgPath()] = p.BinaryType
+		}
 		p.Schema()
 		findLists(p)
 	}
